@@ -171,29 +171,48 @@ Qed.
 Definition chan_eq (f g : Z -> Z -> option Z) : Prop :=
   forall b s, is_byte b -> is_byte s -> f b s = g b s /\ (forall v, g b s = Some v -> is_byte v).
 
-Lemma gen_blend_multiply : chan_eq BlendGen.blend_multiply blend_multiply.
-Proof. unfold chan_eq. apply chan_agree_sound. vm_compute. reflexivity. Qed.
-Lemma gen_blend_screen : chan_eq BlendGen.blend_screen blend_screen.
-Proof. unfold chan_eq. apply chan_agree_sound. vm_compute. reflexivity. Qed.
-Lemma gen_blend_overlay : chan_eq BlendGen.blend_overlay blend_overlay.
-Proof. unfold chan_eq. apply chan_agree_sound. vm_compute. reflexivity. Qed.
-Lemma gen_blend_darken : chan_eq BlendGen.blend_darken blend_darken.
-Proof. unfold chan_eq. apply chan_agree_sound. vm_compute. reflexivity. Qed.
-Lemma gen_blend_lighten : chan_eq BlendGen.blend_lighten blend_lighten.
-Proof. unfold chan_eq. apply chan_agree_sound. vm_compute. reflexivity. Qed.
-Lemma gen_blend_color_dodge : chan_eq BlendGen.blend_color_dodge blend_color_dodge.
-Proof. unfold chan_eq. apply chan_agree_sound. vm_compute. reflexivity. Qed.
-Lemma gen_blend_color_burn : chan_eq BlendGen.blend_color_burn blend_color_burn.
-Proof. unfold chan_eq. apply chan_agree_sound. vm_compute. reflexivity. Qed.
-Lemma gen_blend_hard_light : chan_eq BlendGen.blend_hard_light blend_hard_light.
-Proof. unfold chan_eq. apply chan_agree_sound. vm_compute. reflexivity. Qed.
-Lemma gen_blend_difference : chan_eq BlendGen.blend_difference blend_difference.
-Proof. unfold chan_eq. apply chan_agree_sound. vm_compute. reflexivity. Qed.
-Lemma gen_blend_exclusion : chan_eq BlendGen.blend_exclusion blend_exclusion.
-Proof. unfold chan_eq. apply chan_agree_sound. vm_compute. reflexivity. Qed.
-Lemma gen_blend_divide : chan_eq BlendGen.blend_divide blend_divide.
-Proof. unfold chan_eq. apply chan_agree_sound. vm_compute. reflexivity. Qed.
-(* soft light: the model returns the i32 directly; 65 536 float evaluations on each side *)
-Lemma gen_blend_soft_light : chan_eq BlendGen.blend_soft_light (fun b s => Some (blend_soft_light b s)).
-Proof. unfold chan_eq. apply chan_agree_sound. vm_compute. reflexivity. Qed.
+
+
+
+(* ------------------------------------------------------------------ *)
+(* the wrapper and the baselines *)
+
+Definition pix_eq (f g : pixel -> pixel -> Z -> option pixel) : Prop :=
+  forall b s o, pix_wf b -> pix_wf s -> is_byte o -> f b s o = g b s o.
+
+Lemma pix_alpha_proj (p : pixel) : (let '(_, _, _, p3) := p in p3) = pix_alpha p.
+Proof. destruct p as [[[? ?] ?] ?]. reflexivity. Qed.
+
+Lemma obind_ret {A} (x : option A) : obind x (fun t => Some t) = x.
+Proof. destruct x; reflexivity. Qed.
+
+Lemma gen_blender fg fm : baseline_ok fm -> pix_eq fg fm ->
+  pix_eq (fun b s o => BlendGen.blender b s o fg) (blender fm).
+Proof.
+  intros Hok Hf b s o Hb Hs Ho. unfold BlendGen.blender, blender.
+  rewrite !pix_alpha_proj, !obind_ret, !gen_normal, Hf by assumption.
+  destruct (negb (pix_alpha b =? 0)); [|reflexivity].
+  destruct (normal b s o) as [n|] eqn:Hn; cbn [obind]; [|reflexivity].
+  destruct (fm b s o) as [x|] eqn:Hx; cbn [obind]; [|reflexivity].
+  pose proof (normal_wf_out _ _ _ _ Hb Hn) as Hnwf.
+  destruct (Hok _ _ _ _ Hx) as (s' & _ & Hn').
+  pose proof (normal_wf_out _ _ _ _ Hb Hn') as Hxwf.
+  pose proof (pix_alpha_byte b Hb) as Hba. pose proof (pix_alpha_byte s Hs) as Hsa.
+  rewrite gen_merge by assumption. cbn [obind].
+  rewrite gen_mul_un8_byte by assumption. cbn [obind].
+  rewrite gen_mul_un8_byte by auto using mul_un8_byte. cbn [obind].
+  rewrite gen_merge by (auto using merge_wf, mul_un8_byte). reflexivity.
+Qed.
+
+Lemma gen_blend_channel fg fm : chan_eq fg fm ->
+  pix_eq (fun b s o => BlendGen.blend_channel b s o fg) (blend_channel fm).
+Proof.
+  intros Hf [[[br bg] bb] ba] [[[sr sg] sb] sa] o Hb Hs Ho.
+  pose proof Hb as (Hbr & Hbg & Hbb & Hba). pose proof Hs as (Hsr & Hsg & Hsb & Hsa).
+  unfold BlendGen.blend_channel, blend_channel. rewrite !gen_as_rgba_i32. cbn [obind].
+  destruct (Hf br sr Hbr Hsr) as [-> Hr]. destruct (fm br sr) as [r|]; cbn [obind]; [|reflexivity].
+  destruct (Hf bg sg Hbg Hsg) as [-> Hg]. destruct (fm bg sg) as [g|]; cbn [obind]; [|reflexivity].
+  destruct (Hf bb sb Hbb Hsb) as [-> Hb']. destruct (fm bb sb) as [b'|]; cbn [obind]; [|reflexivity].
+  rewrite obind_ret. apply gen_normal; cbn [pix_wf]; auto.
+Qed.
 
